@@ -119,16 +119,23 @@ def run(sc):
       for op in ops:
         core.apply_op(cx, op)
       core.clear_overflow(cx.d)
-    pre_awake = A.tree_asleep.numpy() < 0  # (nworld, ntree)
+    pre_tree_asleep = A.tree_asleep.numpy().copy()
+    pre_awake = pre_tree_asleep < 0  # (nworld, ntree)
     pre_q = A.qpos.numpy().copy(), A.qvel.numpy().copy()
     # N restarts each step from A's state so that the comparison is single-step
     core.set_istate(mjm, mn, N, core.get_istate(mjm, ms, A))
-    for cx in cxs:
-      mjw.step(cx.m, cx.d)
+    with core.ForwardTap() as tap:
+      for cx in cxs:
+        mjw.step(cx.m, cx.d)
+    mid_awake = ~tap.mid[id(A)]  # awake after the wake passes of forward(): a tree woken and put back to sleep within this step counts as awake
     stats["sim_time"] += float(mjm.opt.timestep) * nworld * len(cxs)
     sa, sn = core.snapshot(ms, A), core.snapshot(mn, N)
     if scen.capacity_overflow(sa) or scen.capacity_overflow(sn):
       stats["skipped"]["capacity_overflow"] = stats["skipped"].get("capacity_overflow", 0) + 1
+      break
+    if not (np.all(np.isfinite(sa["qpos"])) and np.all(np.isfinite(sa["qvel"])) and np.all(np.isfinite(pre_q[0])) and np.all(np.isfinite(pre_q[1]))):
+      # a diverged world (degenerate generated model: MuJoCo warns "inertia matrix too close to singular") is outside every clause
+      stats["skipped"]["nonfinite_state"] = stats["skipped"].get("nonfinite_state", 0) + 1
       break
     post_awake = sa["tree_asleep"] < 0
     dof_tree = mjm.dof_treeid
@@ -137,7 +144,8 @@ def run(sc):
       nsleep = int((~post_awake[w]).sum())
       need_pre = int(sum(int((dof_tree == t).sum()) for t in range(mjm.ntree) if pre_awake[w, t]))
       need_post = int(sum(int((dof_tree == t).sum()) for t in range(mjm.ntree) if post_awake[w, t]))
-      need = min(need_pre, need_post)
+      # the solve runs after the wake passes of forward(): the active DOFs it has to hold are those of the trees awake at the stage tap
+      need = int(sum(int((dof_tree == t).sum()) for t in range(mjm.ntree) if mid_awake[w, t]))
       if nsleep:
         fault("steps_with_sleeping_tree")
       # (i) all awake => compact == full
@@ -154,12 +162,16 @@ def run(sc):
                           "detail": {"step": k, "world": w, "first": bad[0][1], "nefc": int(sa["nefc"][w])}})
       # (ii) sleeping trees frozen
       for t in range(mjm.ntree):
-        if (not pre_awake[w, t]) and (not post_awake[w, t]):
+        if (not pre_awake[w, t]) and (not post_awake[w, t]) and mid_awake[w, t]:
+          fault("woke_and_slept_within_one_step")
+        if (not pre_awake[w, t]) and (not post_awake[w, t]) and (not mid_awake[w, t]):
           stats["evaluations"] += 1
           dsel = dof_tree == t
           if np.any(sa["qacc"][w][dsel] != 0) or not core.bits_equal(sa["qvel"][w][dsel], pre_q[1][w][dsel]):
             viols.append({"class": {"oracle": "frozen_dofs", "field": "qacc" if np.any(sa["qacc"][w][dsel] != 0) else "qvel"},
-                          "detail": {"step": k, "world": w, "tree": t, "qacc": sa["qacc"][w][dsel].tolist()}})
+                          "detail": {"step": k, "world": w, "tree": t, "qacc": sa["qacc"][w][dsel].tolist(), "qvel_before": pre_q[1][w][dsel].tolist(),
+                                     "qvel_after": sa["qvel"][w][dsel].tolist(), "tree_asleep_before": pre_tree_asleep[w].tolist(),
+                                     "tree_asleep_after": sa["tree_asleep"][w].tolist()}})
       # (iii) capacity sweep
       va = core.world_view(sa, w)
       for c in values:
